@@ -141,16 +141,30 @@ FORMS += ["READ{+}A1{_},{_}B2${_},{_}C3{_},{_}D4$", "INPUT{+}A1{_},{_}B2${_},{_}
           'PRINT{+}A1{_};{_}B2{_};{_}C3${_},{_}D4', "ON{+}A1{+}GOTO{_}100{_},{_}200{_},{_}100", "ON{+}A1{+}GOSUB{_}100{_},{_}200{_},{_}100", "A1=B2{_}+{_}C3{_}+{_}D4{_}-{_}1",
           "A1=B2{_}*{_}C3{_}/{_}D4{_}*{_}2", "A1=B2{+}AND{+}C3{+}AND{+}D4", "A1=B2{+}OR{+}C3{+}OR{+}D4", "A1{_}({_}1{_},{_}2{_},{_}3{_}){_}={_}B2{_}({_}3{_},{_}2{_},{_}1{_})",
           "A1=1{_}:{_}B2=2{_}:{_}C3=3{_}:{_}D4=4", 'A1$=B2${_}+{_}"x"{_}+{_}C3${_}+{_}"y"', "DATA 1{_},2{_},3", "A1=B2{_}^{_}2{_}^{_}3"]
+FORMS += ["PRINT{+}" + "{_};{_}".join(["A1", "B2$", '"x y"'] * 20), "A1={_}" + "{_}+{_}".join(["B2"] * 70), "DATA " + "{_},".join(["12"] * 70)]
 FORMS += [re.sub(r"^([A-Z]+) ", r"\\1{+}", t).replace("{e}", "A1").replace("{s}", "A1$").replace(",", "{_},{_}").replace("(", "{_}({_}").replace(")", "{_}){_}") for _, t, _, _ in ROWS]
 
 KNOWN_LAYOUT = {}
 
 
 def convert_or_refusal(src):
+    """both entry points: convert() on the text and convert_file() on a file holding it (what the command line calls) - the verdict and the
+    text must agree between the two as well"""
+    import io
+    from coco.b09.compiler import convert_file
     try:
-        return ("ok", convert(src, add_standard_prefix=False))
+        a = ("ok", convert(src, add_standard_prefix=False))
     except Exception as e:  # noqa
-        return ("refused", type(e).__name__)
+        a = ("refused", type(e).__name__)
+    out = io.StringIO()
+    try:
+        convert_file(io.StringIO(src), out, add_standard_prefix=False)
+        b = ("ok", out.getvalue().replace("\r", "\n"))
+    except Exception as e:  # noqa
+        b = ("refused", type(e).__name__)
+    if a != b:
+        return ("entry points disagree", "convert(): %s %s / convert_file(): %s %s" % (a[0], a[1][:60], b[0], b[1][:60]))
+    return a
 
 
 def forms():
@@ -196,6 +210,15 @@ def line_structure():
         for name, src in variants.items():
             got = convert_or_refusal(src)
             res.append(ob("lines/%s" % name, got == base, base[0], got if got != base else "identical"))
+        # the same for listings that are unusual as a whole: a line number defined twice, descending numbers, a very long line
+        for pname, plines in {"line number defined twice": ["10 A=1", "10 B=2", "20 GOTO 10"], "descending line numbers": ["30 A=1", "20 B=2", "10 END"],
+                              "a 240-character line": ["10 A=1", "20 B$=\"" + "x" * 228 + "\"", "30 END"]}.items():
+            outs = {}
+            for eol in ("\n", "\r", "\r\n"):
+                outs["eol=%r" % eol] = convert_or_refusal(eol.join(plines) + eol)
+                outs["eol=%r,blank-lines" % eol] = convert_or_refusal(eol + plines[0] + eol + eol + plines[1] + eol + " " + eol + plines[2] + eol)
+            ok = len(set(outs.values())) == 1
+            res.append(ob("lines/%s, every line end" % pname, ok, "one verdict and one text", {k: (v[0], v[1][:60]) for k, v in outs.items()} if not ok else "identical (%s)" % next(iter(outs.values()))[0]))
         return res
     return guarded("lines", run)
 
@@ -205,7 +228,9 @@ def content():
         res = []
         for src, needle in (('10 A$="a  b   c "\n', '"a  b   c "'), ("10 DATA  x  y ,2\n", "x  y "), ("10 REM  two  blanks\n", "  two  blanks"), ("10 'c  d\n", "c  d"),
                             ('10 INPUT "NAME  ";A$\n', '"NAME  ? "'), ('10 INPUT "  a  b ";A$\n', '"  a  b ? "'), ('10 LINE INPUT " x  ";A$\n', '" x  "'),
-                            ('10 PRINT "  lead";" trail  "\n', '" trail  "'), ('10 IF A$="  " THEN 10\n', '"  "')):
+                            ('10 PRINT "  lead";" trail  "\n', '" trail  "'), ('10 IF A$="  " THEN 10\n', '"  "'),
+                            # a literal left open runs to the end of its line, trailing blanks included
+                            ('10 A$="HI  \n', '"HI  "'), ('10 LET A$="  \n', ':= "  "'), ('10 A$(1)="  x  \n', '"  x  "'), ('10 B=1:A$=" y \n', '" y "'), ('10 B$="HO  ', '"HO  "')):
             got = convert_or_refusal(src)
             res.append(ob("content/%s" % src.strip(), got[0] == "ok" and needle in got[1], "contains %r" % needle, got[1]))
         # blanks that are content stay content wherever the line stands: last line of the text (with every file ending) or not
